@@ -17,7 +17,7 @@
     leaves_in_order_after_rewriting leaves_need_domain
     writer_is_lines code_is_rendered_lines indentation_read_back try_blank_line_example
     unsupported_stmt_rejected py312_rejected py312_supported
-    char_lines_match_token_lines indentation_matches_token_lines
+    char_lines_match_token_lines indentation_matches_token_lines indentation_read_back_supported
 -/
 import Genshi.Lemmas.PyParseS5
 import Genshi.Lemmas.PyStmtSpec
@@ -27,6 +27,7 @@ import Genshi.Lemmas.PyLeavesWF
 import Genshi.Lemmas.PyLayout
 import Genshi.Lemmas.PyGenOkS
 import Genshi.Lemmas.PyLayoutLines
+import Genshi.Lemmas.PyLayoutText
 namespace Genshi.Props.C13
 open Genshi.Py Genshi.Gen
 
@@ -614,5 +615,21 @@ theorem indentation_matches_token_lines (body : List PyStmt) (hok : genOkBody bo
   simp [nbLines, List.map_map, Function.comp_def]
 
 example : textOKB exModule = true := by decide +kernel
+
+/-- **INDENT / DEDENT structure, hypothesis on the tree**: for every supported module body in which the
+    identifiers are non-empty and free of whitespace and the literal / operator / module-name texts are free of
+    newlines (`charsOKB`, decidable; true of every tree a parser produces), no written line contains a newline or
+    starts with whitespace (`linesOK_body`: two inductions over `genC`, one over the statements), so the
+    generated string reads back with the generator's nesting at every depth. -/
+theorem indentation_read_back_supported (body : List PyStmt) (h : SupportedS body) (hc : charsOKB body = true)
+    (hne : genBodyC 0 body ≠ []) :
+    ∃ code, codeS body = some code ∧
+      retok code = some (((genBodyC 0 body).filter (fun l => !l.blank)).map fun l => (l.indent, l.text)) :=
+  indentation_read_back body (wfsl_genOk body h.1) hne (linesOK_body body 0 h.1 hc)
+
+example : charsOKB exModule = true := by decide +kernel
+example : ∃ code, codeS exModule = some code ∧
+    retok code = some (((genBodyC 0 exModule).filter (fun l => !l.blank)).map fun l => (l.indent, l.text)) :=
+  indentation_read_back_supported exModule exModule_supported (by decide +kernel) (by decide +kernel)
 
 end Genshi.Props.C13
